@@ -15,7 +15,8 @@ import Comdex.Model.LendRates
   lr.borrow  amount rate rrate gi rgi now prev            outcome i igc ri rigc
   lr.stable  amount rate now prev                         outcome i
   lr.track   trBefore x  paid trAfter                     (real lend-reward tracker step)
-  lr.stamp   now lastInteractionAfter indexAfter indexReturned   (real MsgCalculateLendRewards: the handler stores (index, now))
+  lr.stamp   now lastInteractionAfter indexAfter indexReturned again   (real MsgCalculateLendRewards: the handler stores (index, now);
+                                                          again = real reward of a second calculation in the same block)
 outcome ∈ ok err panic. A `*.begin` line starts a new group; monitors relate the lines of one group pairwise
 (monotonicity) and triple-wise (two consecutive intervals against the combined interval), on the REAL outputs.
 -/
@@ -302,10 +303,12 @@ def handle (st : St) (seq : String) (f : List String) : St × List String :=
       let m2 := if tb ≥ 0 && tb < Dec.one && x ≥ 0 && !Comdex.Accrual.carryOk tb x paid ta then ["tracker_carry"] else []
       ({ st with lastTr := some ta }, cont ++ d ++ mons seq (m1 ++ m2))
     | _ => (st, [s!"BAD\t{seq}\tlr.track args"])
-  | ["lr.stamp", now, last, gi, igc] =>
-    -- after the keeper function behind MsgCalculateInterestAndRewards the position carries (index returned, now): `AccL.after`
-    (st, if now = last && gi = igc then [] else
-      [s!"DIFF\t{seq}\tlend position stamp: model=last {now} index {igc}\timpl=last {last} index {gi}"])
+  | ["lr.stamp", now, last, gi, igc, again] =>
+    -- after the keeper function behind MsgCalculateInterestAndRewards the position carries (index returned, now): `AccL.after`;
+    -- `again` = what the REAL accrual function returns for a second calculation in the same block: zero time, zero reward
+    (st, (if now = last && gi = igc then [] else
+      [s!"DIFF\t{seq}\tlend position stamp: model=last {now} index {igc}\timpl=last {last} index {gi}"]) ++
+      (if again = "0" then [] else mons seq ["zero_time"]))
   | _ => (st, [s!"BAD\t{seq}\tunknown lr line"])
 
 end LendRatesDrv
